@@ -192,8 +192,8 @@ impl Transport {
         final(self).idle_timeout == old(self).idle_timeout && final(self).framed_read == old(self).framed_read,     // [C17.idle.sending-does-not-restart] only what the PEER sends counts against the local idle time-out: writing frames leaves the timer alone (otherwise a silent peer is never detected while the local side keeps sending, e.g. its own heartbeats)
         r is Ok ==> final(self).framed_write.items@.len() >= old(self).framed_write.items@.len()
             && final(self).framed_write.items@.take(old(self).framed_write.items@.len() as int) =~= old(self).framed_write.items@,
-        r is Ok ==> flat(added_items(*old(self), *final(self))) =~= wire(item),                                              // [C06.transport.no-loss] the length-delimited items written concatenate to exactly the encoded frame(s): nothing lost, duplicated or reordered
-        r is Ok ==> (forall|i: int| 0 <= i < added_items(*old(self), *final(self)).len() ==> 0 < (#[trigger] added_items(*old(self), *final(self))[i]).len() <= old(self).framed_write.codec.max),   // [C06.transport.max-frame] every item (4-byte length prefix added by the codec) stays within the peer's max-frame-size, and no empty item (a bogus 4-byte frame) is ever written
+        r is Ok ==> flat(added_items(*old(self), *final(self))) =~= wire(item),                                              // [C01.transport.no-loss] [C06.transport.no-loss] the length-delimited items written concatenate to exactly the encoded frame(s): nothing lost, duplicated or reordered
+        r is Ok ==> (forall|i: int| 0 <= i < added_items(*old(self), *final(self)).len() ==> 0 < (#[trigger] added_items(*old(self), *final(self))[i]).len() <= old(self).framed_write.codec.max),   // [C01.transport.no-empty-item] [C06.transport.max-frame] (no item is empty: an empty length-delimited item is a 4-octet pseudo-frame the peer's decoder refuses, taking the connection and every later message down) every item (4-byte length prefix added by the codec) stays within the peer's max-frame-size, and no empty item (a bogus 4-byte frame) is ever written
         r is Err && r->Err_0 is FramingError ==> !is_transfer(item) && wire(item).len() > old(self).framed_write.codec.max,   // [C06.transport.refused-only-if-too-large] a frame is refused as unsendable only when it is not a transfer and its encoding really exceeds the peer's max-frame-size: a performative that fits exactly is sent
         r is Ok && !is_transfer(item) ==> added_items(*old(self), *final(self)).len() == 1,                                  // [C06.transport.non-transfer-whole] only a transfer may continue in further frames: any other performative is written as ONE frame, or (when its encoding exceeds the peer's max-frame-size) not at all
         r is Ok ==> (forall|i: int| 0 <= i < added_items(*old(self), *final(self)).len() - 1 ==> (#[trigger] added_items(*old(self), *final(self))[i]).len() == old(self).framed_write.codec.max),   // [C06.transport.cut-points] all but the last item are exactly max long: with unit FRAMEENC's lemma_cut_points the cuts coincide with the frame boundaries of a split transfer
